@@ -254,6 +254,12 @@ pub fn run_depth_walk(
     }
 }
 
+/// `strict_errors`: the error items must equal the reference's (no pruning glob); otherwise
+/// they only have to be among them (errors beneath pruned directories are never produced).
+pub fn judge_depth_public(o: &DepthOutcome, strict_errors: bool) -> (Vec<String>, Option<String>) {
+    judge_depth(o, strict_errors && o.range.1.is_none())
+}
+
 fn judge_depth(o: &DepthOutcome, max_is_none: bool) -> (Vec<String>, Option<String>) {
     let mut problems = vec![];
     let mut class = None;
@@ -292,7 +298,16 @@ fn judge_depth(o: &DepthOutcome, max_is_none: bool) -> (Vec<String>, Option<Stri
 }
 
 pub fn link_worlds(tier: Tier) -> Vec<World> {
-    let base = fsworld::worlds(tier.pick(2, 3), &["a", "b"], 3);
+    let mut base = fsworld::worlds(tier.pick(2, 3), &["a", "b"], 3);
+    // a few deeper fixed worlds: depth limits beyond prefixes of two components need depth 4-5
+    {
+        use fsworld::FNode;
+        let f = FNode::file;
+        let d = FNode::dir;
+        base.push(World::new(vec![d("a", vec![d("b", vec![d("a", vec![d("b", vec![f("a")])])])])]));
+        base.push(World::new(vec![d("a", vec![d("b", vec![f("a"), d("b", vec![f("a"), f("b")])]), f("a")]), f("b")]));
+        base.push(World::new(vec![f("b"), d("a", vec![f("a"), d("b", vec![d("a", vec![f("b")]), f("b")])])]));
+    }
     let mut out: BTreeSet<String> = BTreeSet::new();
     let mut ws = vec![];
     for w in &base {
